@@ -89,7 +89,16 @@ IAbsV(x) == IF x < 0 THEN -x ELSE x
 (* exact normalised coordinate (Rat) of user coordinate u on axis ax with segment map m (knots
    in F2DOT14 units) *)
 MapJ14(m) == TLCEval([i \in 1..Len(m) |-> <<Rat(m[i][1], F14), Rat(m[i][2], F14)>>])
-NormExact(ax, m, u) == PiecewiseLinearMap(m, NormalizeValue(u, ax))
+(* the segment map with the interpolation ratio taken first (keeps the rationals small) *)
+PwlMapR(m, v) ==
+  IF RBad(v) THEN RNaN
+  ELSE IF Len(m) = 0 THEN v
+  ELSE IF \E i \in 1..Len(m) : m[i][1] = v THEN m[CHOOSE i \in 1..Len(m) : m[i][1] = v][2]
+  ELSE IF RLt(v, m[1][1]) \/ RLt(m[Len(m)][1], v) THEN RNaN          \* 'avar' maps cover [-1, 1]
+  ELSE LET i == CHOOSE k \in 1..Len(m) - 1 : RLt(m[k][1], v) /\ RLt(v, m[k + 1][1])
+           ratio == RDiv(RSub(v, m[i][1]), RSub(m[i + 1][1], m[i][1]))
+       IN RAdd(m[i][2], RMul(RSub(m[i + 1][2], m[i][2]), ratio))
+NormExact(ax, m, u) == PwlMapR(m, NormalizeValue(u, ax))
 (* <<coordinate in F2DOT14 units (rounded), exact?>>; <<0, "bad">> on overflow *)
 Norm14(ax, m, u) ==
   LET x == NormExact(ax, m, u)
@@ -184,6 +193,27 @@ CoordSlackFrom(v, lip, tentErr, shrink, k, acc) ==
   ELSE LET a2 == IF v[k][2] = 0 THEN acc ELSE AxisSlackFrom(IAbsV(v[k][2]), lip[v[k][1]], tentErr, shrink, 1, acc)
        IN CoordSlackFrom(v, lip, tentErr, shrink, k + 1, a2)
 
+(* ---- the delta sets of the EXACT instance ------------------------------------------------
+   A delta set whose deltas all round to 0 is not stored at all, yet its rounding moved the value by
+   up to scalar/2.  The rounding budget therefore counts the delta sets of the exact instance as
+   module Instancer derives them (rebasing every region of the original under the limits; equal
+   regions merge, so distinct regions are counted once), not only those that survive in the file. *)
+Reg14R(reg) == TLCEval([a \in 1..Len(reg) |-> <<Rat(reg[a][1], F14), Rat(reg[a][2], F14), Rat(reg[a][3], F14)>>])
+RegDomainOk(reg) == \A a \in 1..Len(reg) : reg[a][2] = 0 \/ WellFormedTent(<<Rat(reg[a][1], F14), Rat(reg[a][2], F14), Rat(reg[a][3], F14)>>)
+ExactRegions(reg, nlims) ==
+  LET vs == LimitAxesFrom(<< <<Reg14R(reg), <<ROne>> >> >>, nlims, 1)
+      kept == NKept(nlims)
+  IN {ProjRegion(vs[k][1], kept) : k \in {q \in 1..Len(vs) : ~IsDefaultRegion(vs[q][1])}}
+RegBad(R) == \E a \in 1..Len(R) : TentBad(R[a])
+(* 1/2 (in 1/1024 units) times the scalar of an exact region at the instance's location, rounded up *)
+HalfTerm(R, yR) ==
+  LET sc == RegionScalar(R, yR) IN
+  IF RBad(sc) \/ ~MulFits(FX \div 2, sc[1]) THEN FX \div 2
+  ELSE ICeilDiv((FX \div 2) * sc[1], sc[2])
+RECURSIVE SumOver(_, _)
+SumOver(S, f) == IF S = {} THEN 0 ELSE LET x == CHOOSE x \in S : TRUE IN f[x] + SumOver(S \ {x}, f)
+ItemExactRegions(v, ER) == UNION {ER[v[k][1]] : k \in {q \in 1..Len(v) : v[q][2] # 0}}
+
 (* ======================================================================================== *)
 (* whole fonts                                                                               *)
 (* ======================================================================================== *)
@@ -236,11 +266,13 @@ FvDeviationFont(fv, nl14, pinned) ==
           LET b == fv.recs[r].box[c] IN b[2] <= nl14[b[1]] /\ nl14[b[1]] <= b[3]
 
 (* verdict of all items at one location: a set of clause names *)
-AtLocFont(r, O, I, axesO, mapsO, axesI, mapsI, lims, errO, errI, u) ==
+AtLocFont(r, O, I, axesO, mapsO, axesI, mapsI, lims, errO, errI, ER, u) ==
   LET kept == Kept(lims)
       u2 == TLCEval([j \in 1..Len(kept) |-> u[kept[j]]])
       dO == LocData(O, axesO, mapsO, u, errO)
       dI == LocData(I, axesI, mapsI, u2, errI)
+      yR == TLCEval([j \in 1..Len(kept) |-> Rat(dI.x[j], F14)])
+      terms == [R \in UNION {ER[q] : q \in 1..Len(ER)} |-> HalfTerm(R, yR)]
       item(i) ==
         LET a == O.items[i]
             b == I.items[i]
@@ -248,13 +280,14 @@ AtLocFont(r, O, I, axesO, mapsO, axesI, mapsI, lims, errO, errI, u) ==
             vi == ItemValFrom(b.v, dI.fs, 1, b.b, 0)
             diff == IAbsV(vi[1] - vo[1])
             allowed == b.nb * (FX \div 2)
-                       + RoundTermFrom(b.v, dI.fs, b.w * (FX \div 2) * (1 + b.o), 1, 0)
+                       + IMax(RoundTermFrom(b.v, dI.fs, b.w * (FX \div 2) * (1 + b.o), 1, 0),
+                              b.w * (1 + b.o) * SumOver(ItemExactRegions(a.v, ER), terms))
                        + vo[2] + vi[2] + a.inf + b.inf
                        + CoordSlackFrom(b.v, dI.lip, 2, 1, 1, 0)
                        + CoordSlackFrom(a.v, dO.lip, 0, 0, 1, 0)
         IN diff <= allowed
-      fvO == ActiveFeatures(O.fv, dO.x)
-      fvI == ActiveFeatures(I.fv, dI.x)
+      fvO == SelectSeq(ActiveFeatures(O.fv, dO.x), LAMBDA f : Len(f) > 1)     \* a feature without lookups does nothing
+      fvI == SelectSeq(ActiveFeatures(I.fv, dI.x), LAMBDA f : Len(f) > 1)
   IN IF dO.bad \/ dI.bad THEN {"skip:overflow"}
      ELSE (IF dO.jump \/ dI.jump THEN {"skip:near-discontinuity"}
            ELSE IF \E i \in 1..Len(O.items) : O.items[i].rel = 0 /\ ~item(i) THEN {"Preserved"} ELSE {})
@@ -264,7 +297,7 @@ AtLocFont(r, O, I, axesO, mapsO, axesI, mapsI, lims, errO, errI, u) ==
 
 (* items compared relative to the new default location (HVAR of a 'glyf' font: the default advance
    comes from 'gvar', so only the variation part of HVAR is the instancer's) *)
-AtLocRel(r, O, I, axesO, mapsO, axesI, mapsI, lims, errO, errI, u) ==
+AtLocRel(r, O, I, axesO, mapsO, axesI, mapsI, lims, errO, errI, ER, u) ==
   LET kept == Kept(lims)
       u2 == TLCEval([j \in 1..Len(kept) |-> u[kept[j]]])
       ud == TLCEval([a \in 1..Len(lims) |-> lims[a][2]])
@@ -272,6 +305,8 @@ AtLocRel(r, O, I, axesO, mapsO, axesI, mapsI, lims, errO, errI, u) ==
       dD == LocData(O, axesO, mapsO, ud, errO)
       dI == LocData(I, axesI, mapsI, u2, errI)
       W == FX \div 2
+      yR == TLCEval([j \in 1..Len(kept) |-> Rat(dI.x[j], F14)])
+      terms == [R \in UNION {ER[q] : q \in 1..Len(ER)} |-> HalfTerm(R, yR)]
       item(i) ==
         LET a == O.items[i]
             b == I.items[i]
@@ -279,7 +314,8 @@ AtLocRel(r, O, I, axesO, mapsO, axesI, mapsI, lims, errO, errI, u) ==
             vd == ItemValFrom(a.v, dD.fs, 1, 0, 0)
             vi == ItemValFrom(b.v, dI.fs, 1, 0, 0)
             diff == IAbsV(vi[1] - (vo[1] - vd[1]))
-            allowed == RoundTermFrom(b.v, dI.fs, b.w * W, 1, 0) + vo[2] + vd[2] + vi[2]
+            allowed == IMax(RoundTermFrom(b.v, dI.fs, b.w * W, 1, 0), b.w * SumOver(ItemExactRegions(a.v, ER), terms))
+                       + vo[2] + vd[2] + vi[2]
                        + CoordSlackFrom(b.v, dI.lip, 2, 1, 1, 0)
                        + CoordSlackFrom(a.v, dO.lip, 0, 0, 1, 0) + CoordSlackFrom(a.v, dD.lip, 0, 0, 1, 0)
         IN diff <= allowed
@@ -308,9 +344,16 @@ JFont(r) ==
       errO == limErr
       errI == TLCEval([j \in 1..Len(axesI) |-> IF Len(mapsI[j]) > 0 THEN 1 + MaxSlope(I.avar[j]) ELSE 0])
       ulocs == {TLCEval([a \in 1..Len(r.locs[q]) |-> RJ(r.locs[q][a])]) : q \in 1..Len(r.locs)}
-      res == UNION {AtLocFont(r, O, I, axesO, mapsO, axesI, mapsI, lims, errO, errI, u) : u \in ulocs}
+      (* the limits as the instancer normalises them: F2DOT14, with the user-space lengths of the half axes *)
+      nlims == TLCEval([a \in 1..Len(axesO) |->
+                 <<Rat(Norm14(axesO[a], mapsO[a], lims[a][1])[1], F14), Rat(Norm14(axesO[a], mapsO[a], lims[a][2])[1], F14),
+                   Rat(Norm14(axesO[a], mapsO[a], lims[a][3])[1], F14), RSub(axesO[a][2], axesO[a][1]), RSub(axesO[a][3], axesO[a][2])>>])
+      domOk == \A q \in 1..Len(O.regions) : RegDomainOk(O.regions[q])
+      ER == IF domOk THEN TLCEval([q \in 1..Len(O.regions) |-> ExactRegions(O.regions[q], nlims)]) ELSE <<>>
+      erBad == \E q \in 1..Len(ER) : \E R \in ER[q] : RegBad(R)
+      res == UNION {AtLocFont(r, O, I, axesO, mapsO, axesI, mapsI, lims, errO, errI, ER, u) : u \in ulocs}
       hasRel == \E i \in 1..Len(O.items) : O.items[i].rel = 1
-      resRel == IF hasRel THEN UNION {AtLocRel(r, O, I, axesO, mapsO, axesI, mapsI, lims, errO, errI, u) : u \in ulocs} ELSE {}
+      resRel == IF hasRel THEN UNION {AtLocRel(r, O, I, axesO, mapsO, axesI, mapsI, lims, errO, errI, ER, u) : u \in ulocs} ELSE {}
       all == res \cup resRel
       keptInst == SelectSeq(O.instances, LAMBDA co : InstKeep(co, lims))
       wantInst == TLCEval([q \in 1..Len(keptInst) |-> TLCEval([j \in 1..Len(kept) |-> RJ(keptInst[q][kept[j]])])])
@@ -323,6 +366,8 @@ JFont(r) ==
      ELSE IF \E q \in 1..Len(r.locs) : Len(r.locs[q]) # Len(axesO) THEN "malformed:locations"
      ELSE IF \E u \in ulocs : ~InNewSpace(lims, u) THEN "malformed:location-outside"
      ELSE IF hasAvarO /\ \E a \in 1..Len(axesO) : limErr[a] # 0 THEN "skip:inexact-limit-with-avar"
+     ELSE IF ~domOk THEN "skip:tent-outside-domain"
+     ELSE IF erBad THEN "skip:overflow"
      (* AxesCorrect *)
      ELSE IF Len(axesI) # Len(kept) THEN "AxesCorrect:axis-count"
      ELSE IF \E j \in 1..Len(kept) : axesI[j] # lims[kept[j]] THEN "AxesCorrect:min-default-max"
@@ -335,7 +380,7 @@ JFont(r) ==
      ELSE IF ~full /\ ~HasTable(I, "fvar") THEN "AxesCorrect:fvar-missing"
      ELSE IF \E j \in 1..Len(I.regions) : Len(I.regions[j]) # Len(axesI) THEN "AxesCorrect:region-axis-count"
      (* named instances, STAT *)
-     ELSE IF gotInst # wantInst THEN "AxesCorrect:named-instances"
+     ELSE IF ~full /\ gotInst # wantInst THEN "AxesCorrect:named-instances"
      ELSE IF I.stat # wantStat THEN "STAT:axis-values"
      (* Preserved / FeatureVars at every location *)
      ELSE IF "Preserved" \in all THEN "Preserved"
